@@ -13,13 +13,13 @@ import (
 
 // C29 — header API as a case-insensitive ordered multimap.
 type hdrAPI struct {
-	add, set    func(k, v []byte)
-	del         func(k []byte)
-	peek        func(k []byte) []byte
-	peekAll     func(k []byte) [][]byte
-	all         func() [][2][]byte
-	wire        func() []byte
-	reparse     func(b []byte, dis bool) (*hdrAPI, error)
+	add, set func(k, v []byte)
+	del      func(k []byte)
+	peek     func(k []byte) []byte
+	peekAll  func(k []byte) [][]byte
+	all      func() [][2][]byte
+	wire     func() []byte
+	reparse  func(b []byte, dis bool) (*hdrAPI, error)
 }
 
 func newHdr(resp bool, dis bool) *hdrAPI {
@@ -134,11 +134,11 @@ func init() {
 	Register(&Prop{
 		ID: "C29",
 		Rule: "ord: random sequences (2..12 ops) of Add/Set/Del/Peek/PeekAll over ordinary names in several letter cases, request and response headers, normalisation on/off, compared with the Lean model and multimap reference; " +
-			"mix: the same with the specially handled names mixed in, judged by non-interference (other names keep values and order after every op), accumulation of Set-Cookie values under Add and write->parse round trip; " +
+			"mix: the same with the specially handled names mixed in, judged by non-interference (other names keep values and order after every op), accumulation of Set-Cookie values under Add, with serialise-and-parse-back steps in the middle of the sequence (the remaining ops run on the parsed header) and write->parse round trip; " +
 			"non-trivial = at least two names in use and a Del or Set present; distinct = distinct input",
 		Build: func(kind string, a [][]byte) *Case {
 			resp := a[0][0] != 0
-			dis := a[1][0] != 0
+			dis := a[1][0]&1 != 0
 			ops := a[2:]
 			h := newHdr(resp, dis)
 			switch kind {
@@ -199,10 +199,72 @@ func init() {
 				}
 				var verdict *Verdict
 				touchedTrailer := false
+				reparsed := false
 				mut := false
 				names := map[string]bool{}
-				for i := 0; i+2 < len(ops) && verdict == nil; i += 3 {
+				start := 0
+				if a[1][0]&2 != 0 {
+					// the header starts its life as PARSED input: the leading Add ops are rendered as field lines of a raw head,
+					// in their order (so that e.g. a Cookie line sits between other lines), and parsed
+					var raw bytes.Buffer
+					if resp {
+						raw.WriteString("HTTP/1.1 200 OK\r\n")
+					} else {
+						raw.WriteString("GET / HTTP/1.1\r\nHost: example.com\r\n")
+					}
+					var wantOrd []string
+					n := 0
+					for ; n+2 < len(ops) && ops[n][0] == 'A'; n += 3 {
+						k, v := ops[n+1], ops[n+2]
+						if strings.EqualFold(string(k), "Trailer") || strings.EqualFold(string(k), "Host") || strings.EqualFold(string(k), "Content-Length") || strings.EqualFold(string(k), "Transfer-Encoding") || len(v) == 0 {
+							break
+						}
+						fmt.Fprintf(&raw, "%s: %s\r\n", k, v)
+						if !c29Special[strings.ToLower(string(k))] {
+							wantOrd = append(wantOrd, H(k)+"="+H(v))
+						}
+					}
+					raw.WriteString("\r\n")
+					if h2, err := h.reparse(raw.Bytes(), true); err == nil && n > 0 {
+						// names are compared as written: the parse above keeps them verbatim (normalising off) and so does the expectation
+						if got := ordEntries(h2); dis && got != strings.Join(wantOrd, ",") {
+							verdict = &Verdict{VSpec, "parse-order", fmt.Sprintf("resp=%v raw head %q: parsed ordinary fields [%s], field lines in order [%s]", resp, raw.Bytes(), got, strings.Join(wantOrd, ","))}
+						}
+						if h3, err := h.reparse(raw.Bytes(), dis); err == nil {
+							h = h3
+							start = n
+							reparsed = true
+						}
+					}
+				}
+				for i := start; i+2 < len(ops) && verdict == nil; i += 3 {
 					op, k, v := ops[i][0], ops[i+1], ops[i+2]
+					if op == 'R' {
+						// serialise, parse back, and go on with the PARSED header (a server works on parsed headers: entries
+						// such as Cookie are then held in their raw form until first use)
+						if touchedTrailer {
+							continue
+						}
+						if !resp && len(h.peek(B("Host"))) == 0 {
+							h.set(B("Host"), B("example.com"))
+						}
+						x := ordEntries(h)
+						h2, err := h.reparse(h.wire(), dis)
+						if err != nil {
+							continue
+						}
+						if y := ordEntries(h2); x != y {
+							key := "write-read-fields"
+							if sameMultiset(x, y) {
+								key = "write-read-order"
+							}
+							verdict = &Verdict{VSpec, key, fmt.Sprintf("resp=%v dis=%v ops=%s: written [%s], read back [%s]", resp, dis, showOps(ops[:i+3]), x, y)}
+							break
+						}
+						h = h2
+						reparsed = true
+						continue
+					}
 					names[canon(k)] = true
 					if strings.EqualFold(string(k), "Trailer") {
 						touchedTrailer = true
@@ -270,7 +332,7 @@ func init() {
 				if verdict != nil {
 					res = *verdict
 				}
-				return &Case{Impl: res.Detail, Nontrivial: len(names) >= 2 && mut, Tags: []string{"mix"}, Judge: func([]string) Verdict { return res }}
+				return &Case{Impl: res.Detail, Nontrivial: len(names) >= 2 && mut, Tags: []string{"mix", fmt.Sprintf("mix-reparsed-midway=%v", reparsed)}, Judge: func([]string) Verdict { return res }}
 			}
 			return nil
 		},
@@ -285,19 +347,38 @@ func init() {
 				names := ordNames
 				opsAl := []byte("AAASDDPM")
 				if i%2 == 1 {
-					kind, names, opsAl = "mix", mixNames, []byte("AAASSDD")
+					kind, names, opsAl = "mix", mixNames, []byte("AAASSDDR")
 				}
 				args := [][]byte{{byte(r.Intn(2))}, {0}}
 				if r.Chance(20) {
 					args[1] = []byte{1}
 				}
+				if kind == "mix" && r.Chance(40) {
+					args[1][0] |= 2 // start from a parsed raw head made of the leading Add ops
+				}
 				m := 2 + r.Intn(11)
+				lead := 0
+				if args[1][0]&2 != 0 {
+					lead = 2 + r.Intn(4) // that many leading Adds become the raw head
+				}
+				cookieAt := -1
+				if lead > 0 && r.Chance(60) {
+					cookieAt = r.Intn(lead)
+				}
 				for j := 0; j < m; j++ {
 					k := names[r.Intn(len(names))]
 					if kind == "mix" && r.Chance(55) {
 						k = ordNames[r.Intn(len(ordNames))]
 					}
-					args = append(args, []byte{opsAl[r.Intn(len(opsAl))]}, k, vals[r.Intn(len(vals))])
+					op := opsAl[r.Intn(len(opsAl))]
+					v := vals[r.Intn(len(vals))]
+					if j < lead {
+						op = 'A'
+						if j == cookieAt {
+							k, v = B("Cookie"), B("k=v")
+						}
+					}
+					args = append(args, []byte{op}, k, v)
 				}
 				emit(kind, args...)
 			}
